@@ -234,6 +234,21 @@ func init() {
 		Rule:        "rapid: list (0..5) of documented-valid points (C01 generator: domain edges, negative and extreme altitudes) x EPSG code: 60% 3857, 20% another code of the bundled table, 20% unknown codes (neighbours of valid codes, random). Sweep: every code of the bundled table x 8 fixed points (and the empty list), 10 unknown codes, 13 altitudes x 4 positions on 3857. Non-trivial: |lat|>80 or |lon|>179 or |alt|>1km or list length>=2.",
 		Assumptions: []string{"EPSG:3857 forward compared with x=R*lon*pi/180, y=R*asinh(tan lat), R=6378137, tolerance 1e-4 m + 1e-12 relative", "round trip tolerance 2e-10 deg (property) + 2^-45; lon 180 and -180 identified", "other codes: a conversion error (point outside the CRS's area of use) is accepted; otherwise length, order and bit-identical altitude are required", "bundled EPSG table enumerated in the check (from the wgs84 v1.1.7 source)"},
 		Gen:         genC18, Check: checkC18, Classify: classifyC18, Sweep: sweepC18,
+		Related: func(c *CaseC18) []*CaseC18 {
+			if len(c.Pts) == 0 {
+				return nil
+			}
+			// same positions with other altitudes (each point twice in a row with different altitudes); another CRS
+			a := &CaseC18{CRS: c.CRS}
+			for _, p := range c.Pts {
+				a.Pts = append(a.Pts, Pt{p.Lon, p.Lat, F64(p.Alt.V()/4 + 3)}, Pt{p.Lon, p.Lat, F64(-7.5)})
+			}
+			other := 3857
+			if c.CRS == 3857 {
+				other = 4326
+			}
+			return []*CaseC18{a, {Pts: c.Pts, CRS: other}}
+		},
 		SweepScopes: func(tier string) []string {
 			return []string{"every EPSG code of the bundled table (177 codes) x 8 fixed points + empty list (exhaustive over the table)", "10 unknown codes x {2 points, empty list}", "EPSG:3857: 13 altitudes from 0 to +-2^25 m x 4 positions"}
 		},
